@@ -66,7 +66,7 @@ V_ASSUME = ["go1.26.8 testing/synctest schedules the real library code faithfull
 
 def plan_C01(tier, seed, q):
     return {"level": "exploration", "rule": E2E_RULE + "; oracle: reply == f(own args) byte for byte and handler saw exactly those args",
-            "jobs": e2e_jobs("C01", tier, seed, "mix", 420, 6000, race_t=600),
+            "jobs": e2e_jobs("C01", tier, seed, "mix", 420, 6000, race_t=600) + real_jobs("C01", tier, seed, "mix", 60, 2000, race_t=300),
             "min_evaluations": 100, "min_distinct": 50, "assumptions": V_ASSUME}
 
 
@@ -74,7 +74,7 @@ def plan_C05(tier, seed, q):
     return {"level": "exploration", "rule": E2E_RULE + "; profile 'order': server pipelining on, one issuer per connection using Go on a shared Done "
             "channel; oracles: handler entry order == issue order per connection, no overlap, wire response order == request order, "
             "arrival order on Done == issue order when the client pipelines too",
-            "jobs": e2e_jobs("C05", tier, seed, "order", 300, 4000, race_t=400),
+            "jobs": e2e_jobs("C05", tier, seed, "order", 300, 4000, race_t=400) + real_jobs("C05", tier, seed, "order", 48, 1500, race_t=200, poll=1),
             "min_evaluations": 100, "min_distinct": 50, "assumptions": V_ASSUME}
 
 
@@ -91,7 +91,7 @@ def plan_C09(tier, seed, q):
     return {"level": "exploration", "rule": E2E_RULE + "; profile 'streams': 1-16 streams per connection, handler pushes 0/1/5 messages right after open, "
             "client writes first or reads first, echo/sink/burst steps, unary traffic alongside; oracles: sequence equality on both ends, "
             "no reader blocked at quiescence",
-            "jobs": e2e_jobs("C09", tier, seed, "streams", 400, 6000, race_t=600) + e2e_jobs("C09", tier, seed + 7, "mix", 120, 1500),
+            "jobs": e2e_jobs("C09", tier, seed, "streams", 400, 6000, race_t=600) + e2e_jobs("C09", tier, seed + 7, "mix", 120, 1500) + real_jobs("C09", tier, seed, "streams", 48, 1500, race_t=200),
             "min_evaluations": 100, "min_distinct": 50, "assumptions": V_ASSUME}
 
 
@@ -99,7 +99,7 @@ def plan_C11(tier, seed, q):
     return {"level": "exploration", "rule": E2E_RULE + "; profile 'retain': aliasing codecs (bytes, pb, code), handlers keep their argument slices, callers keep "
             "replies (fresh and context-buffer) and stream messages, GC forced every 3 virtual ms; oracles: SHA-256 at hand-over == "
             "SHA-256 at the end, canary bytes of caller-supplied buffers beyond the encoded reply untouched",
-            "jobs": e2e_jobs("C11", tier, seed, "retain", 240, 3000, race_t=300) + e2e_jobs("C11", tier, seed + 7, "mix", 120, 1500),
+            "jobs": e2e_jobs("C11", tier, seed, "retain", 240, 3000, race_t=300) + e2e_jobs("C11", tier, seed + 7, "mix", 120, 1500) + real_jobs("C11", tier, seed, "retain", 36, 1000, race_t=200),
             "min_evaluations": 100, "min_distinct": 50, "assumptions": V_ASSUME}
 
 
@@ -325,3 +325,73 @@ def plan_C20(tier, seed, q):
                     "on its stack, no memnet connection end is open on either side, Listen has returned, second Conn.Close == ErrShutdown, the other "
                     "second Close calls == nil; distinct = distinct history parameters",
             "jobs": jobs, "min_evaluations": 100, "min_distinct": 50, "assumptions": V_ASSUME + ["poll-mode servers are excluded by the statement"]}
+
+
+def plan_C10(tier, seed, q):
+    n = 1600 if q else 40000
+    jobs = shard("vt", "sclose", "C10", tier, seed, n, 8, timeout=1500)
+    if q:
+        jobs += cut_jobs("C10", tier, seed, [], [0, 2, 5], 5, 6)
+    else:
+        jobs += cut_jobs("C10", tier, seed, [0, 2, 5, 6], [], 1, 12, timeout=3000)
+        jobs += shard("vt-race", "sclose", "C10", tier, seed + 1, 3000, 8, timeout=3000)
+    jobs += one("rt", "pollstream", "C10", tier, seed, timeout=900, extra={"n": 40 if q else 400})
+    return {"level": "fault_enumeration",
+            "rule": "scenario = 1-5 sibling streams on one connection (4 header encoders x 4 body codecs x 9 I/O mode combinations x fragmentation), each with a "
+                    "client reader and the server handler blocked in ReadMessage, optionally with messages in flight, then one event from {client closes one "
+                    "stream, Conn.Close, cut of either direction (reset/EOF/custom) a few bytes ahead, Server.Close}; at quiescence (virtual time) every "
+                    "affected blocked ReadMessage has returned ErrStreamShutdown, the handler has returned, later Read/WriteMessage return "
+                    "ErrStreamShutdown in zero time, and after closing one stream its siblings still echo and a unary call still works; plus the stream "
+                    "operations of the cut engine's byte-offset enumeration; plus engine 'pollstream' on real TCP/UNIX sockets against poll-mode servers "
+                    "(handler must exit after the client disconnects, judged by the responsiveness-relative rule); distinct = distinct scenario parameters",
+            "jobs": jobs, "min_evaluations": 300, "min_distinct": 100, "parallel": 14,
+            "assumptions": V_ASSUME + ["poll-mode servers cannot run in the bubble; their verdicts come from real time and may be inconclusive",
+                                       "a WriteMessage racing with the shutdown may still return nil (write errors are not surfaced by the stream API); only later writes must fail"]}
+
+
+def real_jobs(prop, tier, seed, profile, nq, nt, shards=12, race_t=0, poll=0):
+    q = tier == "quick"
+    n = nq if q else nt
+    jobs = shard("rt", "real", prop, tier, seed, n, shards, timeout=900 if q else 3000, extra={"profile": profile, "poll": poll})
+    if not q and race_t:
+        jobs += shard("rt-race", "real", prop, tier, seed + 1000, race_t, shards, timeout=3000, extra={"profile": profile, "poll": poll})
+    return jobs
+
+
+R_RULE = ("; the same scenarios also run in real time over tcp/unix/inproc sockets against poll-mode (netpoll) and ordinary servers "
+          "(engine 'real': value oracles only, a real-time budget that runs out is inconclusive)")
+R_ASSUME = ["real-network scenarios use loopback TCP ports chosen by the kernel and unix sockets under /verif/out; verdicts there never depend on wall-clock deadlines"]
+
+
+def plan_C04(tier, seed, q):
+    jobs = (e2e_jobs("C04", tier, seed, "mix", 300, 4000, race_t=400) + e2e_jobs("C04", tier, seed + 3, "errors", 200, 3000)
+            + real_jobs("C04", tier, seed, "mix", 48, 1500, race_t=300)
+            + pool_jobs("C04", tier, seed, [("limits", 300 if q else 6000)], shards=6)
+            + cut_jobs("C04", tier, seed, [], [0, 1, 2, 6], 9 if q else 2, 4))
+    return {"level": "exploration", "rule": E2E_RULE + "; oracles: handler ledger shows exactly one execution per successful or handler-failed call, none for unknown "
+            "methods / undecodable arguments / unencodable requests / pings, none for an id nobody sent, arguments equal to what was sent; the wire tap shows exactly "
+            "one response frame per unary request and none unsolicited; through Transport and Client (incl. server kills, engine 'pool') an id is never executed "
+            "twice; on connections cut at enumerated byte offsets (engine 'cut') nothing is executed or answered twice and nothing undelivered is executed" + R_RULE,
+            "jobs": jobs, "min_evaluations": 300, "min_distinct": 100, "parallel": 14, "assumptions": V_ASSUME + R_ASSUME}
+
+
+def plan_C12(tier, seed, q):
+    shards = 12
+    ex = {"random": 0 if q else 3000}
+    jobs = []
+    for s in range(shards):
+        jobs.append(Job("rt", "matrix", {"prop": "C12", "tier": tier, "seed": seed, "from": s, "to": 0, "stride": shards, "extra": ex}, timeout=900 if q else 3300))
+    jobs += e2e_jobs("C12", tier, seed, "mix", 200, 3000)
+    return {"level": "exploration",
+            "rule": "configuration = (network in {tcp, unix, http, inproc} x {TLS, no TLS} + ws, header encoder, body codec, server poll/pipelining/direct-IO/"
+                    "context-buffer/NoCopy(json only), client pipelining/direct-IO, server and client buffer size in {default,64,4096,65536,262144}, how "
+                    "configured in {Options with constructors, Options with names, names plus conflicting constructors (name must win), Listen/Dial by "
+                    "names}); quick = a seeded greedy pairwise-covering set (every pair of values of any two dimensions that the constraints allow, ~60 "
+                    "configurations); thorough = that set + 3000 seeded random configurations; each runs the SAME seeded workload on real sockets (3 "
+                    "callers x 2 connections x 8 operations incl. a 300 KB message in both directions, failing calls of five kinds, pings, one stream "
+                    "per connection; ws: one caller, calls only) and every outcome is compared with the reference given by the pure reply function / the "
+                    "server's error text; plus memnet scenarios (engine e2e, profile mix) whose unexpected failures count as C12; distinct = distinct "
+                    "configuration",
+            "jobs": jobs, "min_evaluations": 40, "min_distinct": 40, "parallel": 12,
+            "assumptions": R_ASSUME + ["ws under poll mode is excluded: it stalls inside hslam/websocket + hslam/netpoll (dependency) on a zero-length answer or a message larger than the buffer",
+                                       "wss is not in the statement's set", "NoCopy is combined with the json body codec only, as the statement says"]}
